@@ -111,15 +111,21 @@ fn side_json(s: &Side) -> Value {
 
 #[allow(clippy::too_many_arguments)]
 fn pair(tr: &mut Trace, server: &Server<Arc<ScriptedFs>>, fs: &ScriptedFs, rng: &mut Rng, gen: &str, op: &str, transport: &str, bytes: &[u8], cap: usize,
-        script: &Ret, vu: bool, cls: Value) {
+        script: &Ret, vu: bool, cls: Value) -> usize {
     let seg = (wire::split_lens(rng, bytes.len(), 0), wire::split_lens(rng, cap, 0), rng.below(4096), rng.below(4096), *rng.pick(&[0u64, 1, 64, 4096]));
-    let s = run_side(server, fs, script, false, transport, bytes, cap, vu, &seg);
-    let a = run_side(server, fs, script, true, transport, bytes, cap, vu, &seg);
+    // a crash of the process (abort after memory corruption, stack overflow) must be attributable: say what is about to run
     let hex = if bytes.len() <= 128 { bytes.iter().map(|x| format!("{x:02x}")).collect::<String>() } else { String::new() };
+    tr.emit(&json!({"e": "Run", "side": "sync", "gen": gen, "op": op, "tr": transport, "cap": cap, "nbytes": bytes.len(), "hex": hex}));
+    tr.flush();
+    let s = run_side(server, fs, script, false, transport, bytes, cap, vu, &seg);
+    tr.emit(&json!({"e": "Run", "side": "async", "gen": gen, "op": op, "tr": transport, "cap": cap, "nbytes": bytes.len(), "hex": hex}));
+    tr.flush();
+    let a = run_side(server, fs, script, true, transport, bytes, cap, vu, &seg);
     let huge = bytes.len() >= 4 && wire::u32le(bytes, 0) as u64 > (1 << 20) + 4096;
     let wsz = if op == "WRITE" && bytes.len() >= 60 { wire::u32le(bytes, 56) as u64 } else { 0 };
     tr.emit(&json!({"e": "Pair", "gen": gen, "op": op, "tr": transport, "cap": cap, "nbytes": bytes.len(), "len_huge": huge,
         "write_size_gt_max": wsz > (1 << 20), "cls": cls, "hex": hex, "sync": side_json(&s), "async": side_json(&a)}));
+    if s.present { s.len } else { 0 }
 }
 
 fn main() {
@@ -169,7 +175,16 @@ fn main() {
                     x => x,
                 };
                 let cap = 16 + 160 + b.cap_hint + 4096;
-                pair(&mut tr, &server, &fs, &mut rng, "wf", opname, transport, &b.bytes, cap, &script, true, json!({}));
+                let len = pair(&mut tr, &server, &fs, &mut rng, "wf", opname, transport, &b.bytes, cap, &script, true, json!({}));
+                // the same request with reply buffers that are just too small for the reply it produced: one byte, the last
+                // 8 / 16 bytes (replies written in parts), everything but the header
+                if rep < 2 && len > 16 && opname != "INIT" {
+                    for short in [1usize, 8, 16, 17, len - 16] {
+                        if short < len {
+                            pair(&mut tr, &server, &fs, &mut rng, "short", opname, transport, &b.bytes, len - short, &script, true, json!({"short_by": short}));
+                        }
+                    }
+                }
             }
         }
     }
